@@ -787,7 +787,7 @@ def run(tier, seed):
             "representable (integer arrays into float data, numpy ints in metadata, empty blobs, ...) is not a "
             "violation (C08 only forbids silent alteration) - if it is accepted the round trip must hold",
             "text arrays are stored verbatim whatever the vertex count (only numeric data is length-checked by the "
-            "code: numeric_data.py:81-110); bytes and str are compared as text (UTF-8)",
+            "code: numeric_data.py:74-98); bytes and str are compared as text (UTF-8)",
             "float -> int32 conversion of out-of-range floats is the C cast's platform value (INT_MIN on x86-64)",
             "the HDF5 library, h5py and numpy are trusted; VERTEX association on Points; concatenated (drillhole) "
             "data is not exercised",
